@@ -179,6 +179,12 @@ class Sym:
             if el == "*":
                 e = deref(e)
             elif "f" in el:
+                if e[0] == "downcast" and e[2] == "Some" and el["n"] == "0":
+                    b = strip(e[1])
+                    if b[0] == "call" and b[1].endswith("::checked_sub") and len(b[2]) == 2:
+                        # the payload of `a.checked_sub(b)` is `a - b` (and it exists exactly when a >= b: see bool_atom)
+                        e = ("bin", "Sub", b[2][0], b[2][1])
+                        continue
                 e = field(e, el["n"], el["f"], el.get("of", ""))
             elif "ix" in el:
                 e = ("index", e, self.local(el["ix"]))
@@ -445,6 +451,11 @@ def bool_atom(c):
     """normalise a condition on a boolean/comparison expression to (op, a, b) with op in
     Lt Le Gt Ge Eq Ne, or ('truth', expr, bool). Returns None when not boolean-like."""
     e, rel, vals = c[0], c[1], c[2]
+    if e[0] == "discr":
+        b = strip(e[1])
+        if b[0] == "call" and b[1].endswith("::checked_sub") and len(b[2]) == 2 and tuple(vals) in ((0,), (1,)):
+            some = (tuple(vals) == (1,)) == (rel == "in")
+            return ("Ge" if some else "Lt", b[2][0], b[2][1])
     truth = None
     if rel == "in" and vals == (0,):
         truth = False
